@@ -9,7 +9,9 @@
 //	           late                               connection dialled (with a full request) after closing became visible
 //	           unreg                              Serve is held between l.Accept() and `go handleLoop` (first conn.RemoteAddr()
 //	                                              call blocks) until Close has returned (divergence D36)
-//	    warmups: number of complete exchanges done on that connection before it is driven to its point
+//	    warmups: number of complete exchanges done on that connection before it is driven to its point;
+//	             a trailing p (reqmod.1p) pipelines a second request right behind the parked one
+//	    async    (token) release all parked exchanges at once instead of one after the other
 //	    R: order in which the parked exchanges are released after Close was called
 //	S n:<k> sd:<seed> [slow]                       unforced stress: k clients racing Accept/serve against Close
 //
@@ -75,10 +77,10 @@ type connRec struct {
 }
 
 type run struct {
-	mu      sync.Mutex
-	ev      []string
-	conns   []*connRec
-	byAddr  map[string]*connRec
+	mu       sync.Mutex
+	ev       []string
+	conns    []*connRec
+	byAddr   map[string]*connRec
 	accepted chan struct{} // pinged on every accept
 	// configuration for the next accepted connection
 	nextPark   string
@@ -360,6 +362,18 @@ func (cl *client) send(n int) {
 	fmt.Fprintf(cl.c, "GET http://h.test/b/%d HTTP/1.1\r\nHost: h.test\r\n\r\n", n)
 }
 
+// sendPipelined writes several requests in a single socket write.
+func (cl *client) sendPipelined(ns ...int) {
+	var b bytes.Buffer
+	cl.mu.Lock()
+	for _, n := range ns {
+		cl.sizes = append(cl.sizes, n)
+		fmt.Fprintf(&b, "GET http://h.test/b/%d HTTP/1.1\r\nHost: h.test\r\n\r\n", n)
+	}
+	cl.mu.Unlock()
+	cl.c.Write(b.Bytes())
+}
+
 func (cl *client) sendHalf() {
 	fmt.Fprintf(cl.c, "GET http://h.test/b/5 HTTP/1.1\r\nHost: h.te")
 }
@@ -476,16 +490,19 @@ func waitFor(d time.Duration, f func() bool) bool {
 type spec struct {
 	point string
 	warm  int
+	pipe  bool
 	cl    *client
 	cr    *connRec
 }
 
 var points = []string{"idle", "head", "reqmod", "rt", "resmod", "write"}
 
-func parseForced(in []string) (sz int, specs []*spec, order []int) {
+func parseForced(in []string) (sz int, specs []*spec, order []int, async bool) {
 	sz = 100
 	for _, t := range in[1:] {
 		switch {
+		case t == "async":
+			async = true
 		case strings.HasPrefix(t, "sz:"):
 			sz, _ = strconv.Atoi(t[3:])
 		case strings.HasPrefix(t, "R:"):
@@ -497,13 +514,18 @@ func parseForced(in []string) (sz int, specs []*spec, order []int) {
 		default:
 			pw := strings.SplitN(t, ".", 2)
 			w := 0
+			pipe := false
 			if len(pw) == 2 {
+				if strings.HasSuffix(pw[1], "p") {
+					pipe = true
+					pw[1] = strings.TrimSuffix(pw[1], "p")
+				}
 				w, _ = strconv.Atoi(pw[1])
 			}
 			if w > 3 {
 				w = 3
 			}
-			specs = append(specs, &spec{point: pw[0], warm: w})
+			specs = append(specs, &spec{point: pw[0], warm: w, pipe: pipe && isParked(pw[0])})
 		}
 	}
 	if sz < 0 || sz > 1<<16 {
@@ -534,7 +556,7 @@ func parseForced(in []string) (sz int, specs []*spec, order []int) {
 		}
 		out = append(out, s)
 	}
-	return sz, out, order
+	return sz, out, order, async
 }
 
 func (e *env) awaitAccept(cl *client, d time.Duration) *connRec {
@@ -544,7 +566,7 @@ func (e *env) awaitAccept(cl *client, d time.Duration) *connRec {
 }
 
 func runForced(in []string) (out []string) {
-	sz, specs, order := parseForced(in)
+	sz, specs, order, async := parseForced(in)
 	e, err := start()
 	if err != nil {
 		return []string{"ENVFAIL"}
@@ -609,14 +631,22 @@ func runForced(in []string) (out []string) {
 				h.add(fmt.Sprintf("h%d", s.cr.id))
 			}
 		case "reqmod", "rt", "resmod":
-			cl.send(sz)
+			if s.pipe {
+				cl.sendPipelined(sz, sz+7)
+			} else {
+				cl.send(sz)
+			}
 			select {
 			case <-s.cr.parked:
 			case <-time.After(10 * time.Second):
 				flags = append(flags, "NOPARK")
 			}
 		case "write":
-			cl.send(bigBody)
+			if s.pipe {
+				cl.sendPipelined(bigBody, sz+7)
+			} else {
+				cl.send(bigBody)
+			}
 			// parked when the head went out and the socket write has stalled
 			var last int64 = -1
 			stable := 0
@@ -698,17 +728,26 @@ func runForced(in []string) (out []string) {
 			close(s.cr.release)
 		}
 		s.cl.drain(8 * time.Second)
-		// let this exchange finish before the next one is released
-		select {
-		case <-s.cl.done:
-		case <-time.After(10 * time.Second):
+		if async {
+			continue
 		}
+		// let this exchange finish (response completely written, or the
+		// client stream ended) before the next one is released
+		wtok := fmt.Sprintf("w%d", s.cr.id)
+		waitFor(10*time.Second, func() bool {
+			select {
+			case <-s.cl.done:
+				return true
+			default:
+			}
+			return h.count(wtok) >= s.warm+1
+		})
 	}
 
 	// 5. Close must return
 	select {
 	case <-closed:
-	case <-time.After(15 * time.Second):
+	case <-time.After(8 * time.Second):
 		flags = append(flags, "DEADLOCK")
 	}
 	for _, s := range specs {
@@ -723,17 +762,25 @@ func runForced(in []string) (out []string) {
 // finish waits for quiescence and renders OUT.
 func (e *env) finish(all []*client, flags []string) []string {
 	h := e.h
-	for _, cl := range all {
-		cl.drain(8 * time.Second)
+	// when Close did not return nothing more is going to happen: do not wait long
+	patience := 10 * time.Second
+	for _, f := range flags {
+		if f == "DEADLOCK" {
+			patience = 300 * time.Millisecond
+		}
 	}
+	for _, cl := range all {
+		cl.drain(patience)
+	}
+	limit := time.Now().Add(patience)
 	for _, cl := range all {
 		select {
 		case <-cl.done:
-		case <-time.After(10 * time.Second):
+		case <-time.After(time.Until(limit)):
 		}
 	}
 	// every accepted connection gets closed by the proxy
-	waitFor(5*time.Second, func() bool {
+	waitFor(patience/2, func() bool {
 		h.mu.Lock()
 		defer h.mu.Unlock()
 		for _, cr := range h.conns {
@@ -854,7 +901,7 @@ func runStress(in []string) []string {
 	var flags []string
 	select {
 	case <-closed:
-	case <-time.After(20 * time.Second):
+	case <-time.After(8 * time.Second):
 		flags = append(flags, "DEADLOCK")
 	}
 	wg.Wait()
@@ -1055,6 +1102,43 @@ func main() {
 				o = ps[rng.Intn(len(ps))]
 			}
 			addF(pts, warm, o, pickSz(rng))
+		}
+		// pipelined second request behind the parked one; simultaneous release
+		np2 := 16
+		if cfg.Thorough() {
+			np2 = 120
+		}
+		parkedPts := []string{"reqmod", "rt", "resmod", "write"}
+		for i := 0; i < np2; i++ {
+			k := rng.Range(1, 3)
+			in := []string{"F", fmt.Sprintf("sz:%d", pickSz(rng))}
+			np := 0
+			for j := 0; j < k; j++ {
+				var p string
+				if j == 0 || rng.Chance(2, 3) {
+					p = parkedPts[rng.Intn(4)]
+					np++
+				} else {
+					p = points[rng.Intn(2)]
+				}
+				tok := fmt.Sprintf("%s.%d", p, rng.Intn(2))
+				if isParked(p) && rng.Chance(1, 2) {
+					tok += "p"
+					cfg.Count("pipelined")
+				}
+				cfg.Count("point=" + p)
+				in = append(in, tok)
+			}
+			if ps := perms(np); len(ps) > 1 {
+				in = append(in, orderTok(ps[rng.Intn(len(ps))]))
+			}
+			if rng.Chance(1, 2) {
+				in = append(in, "async")
+				cfg.Count("async")
+			}
+			cfg.Count(fmt.Sprintf("conns=%d", k))
+			n++
+			jobs = append(jobs, job{fmt.Sprintf("f%d", n), in})
 		}
 		// unforced stress
 		ns := 40
